@@ -345,6 +345,13 @@ func (e *Enc) val(v ssa.Value) string {
 	if l, ok := e.locs[v]; ok && l.Kind == "heap" && len(l.Path) == 0 {
 		return l.Base
 	}
+	if l, ok := e.locs[v]; ok && l != nil && len(l.Path) > 0 {
+		// interior pointer used as a value (compared with nil, boxed): an opaque non-nil address
+		c := e.r.decl(e.r.fresh(e.pfx+"iptr"), "Int")
+		e.r.assume(fmt.Sprintf("(> %s 0)", c))
+		e.vals[v] = c
+		return c
+	}
 	e.r.errorf("internal: no term for value %s (%T) in %s", v.Name(), v, e.fn.Name())
 	return e.havoc(v.Type(), "unk")
 }
